@@ -1,5 +1,6 @@
 #!/bin/bash
-# tools/try_seeded.sh <dir> <id>... : runs the quick check of each listed change's property against it (4 at a time)
-# and prints "<id> <exit> <first signatures>".
+# tools/try_seeded.sh <dir> <id>... : runs the quick check of each listed change's property (or the property named by
+# "checked_by" in its meta.json) against it, 4 at a time, and prints "<id> <prop> <exit> <first signatures>".
 D="$1"; shift
-printf '%s\n' "$@" | xargs -P 4 -I{} bash -c 'id={}; prop=${id%%-*}; out=$(MUT_LINES=3 /verif/tools/mutant.sh '"$D"'/$id/patch.diff $prop quick 2>&1); rc=$(echo "$out" | grep -o "exit=[0-9]*" | tail -1); sigs=$(echo "$out" | grep violation | sed "s/^ *[0-9]* violation: //" | head -3 | tr "\n" ";"); echo "$id $rc $sigs"'
+export D
+printf '%s\n' "$@" | xargs -P ${TRY_PAR:-4} -I{} bash -c 'id={}; prop=${id%%-*}; ov=$(python3 -c "import json,sys; print(json.load(open(sys.argv[1])).get(\"checked_by\",\"\"))" "$D/$id/meta.json" 2>/dev/null); [ -n "$ov" ] && prop=$ov; out=$(MUT_LINES=3 /verif/tools/mutant.sh "$D/$id/patch.diff" $prop quick 2>&1); rc=$(echo "$out" | grep -o "exit=[0-9]*" | tail -1); sigs=$(echo "$out" | grep violation | sed "s/^ *[0-9]* violation: //" | head -3 | tr "\n" ";"); echo "$id $prop $rc $sigs"'
